@@ -15,6 +15,7 @@ MC_CFG = """CONSTANTS
   MaxLen = %(maxlen)d
   PostLen = %(postlen)d
   Deep = %(deep)s
+  Prune = %(prune)s
 INIT Init
 NEXT Next
 CONSTRAINT EmitAll
@@ -23,15 +24,15 @@ CHECK_DEADLOCK FALSE
 """
 
 
-def run_mc(ctx, mode, maxlen, postlen, deep, workers=8, timeout=1500):
+def run_mc(ctx, mode, maxlen, postlen, deep, prune=True, workers=8, timeout=1500):
     """Runs Session_MC; returns (TLCResult, scenarios). A model-level violation of the *repaired* mechanism
     means the specification itself is inconsistent: not a verdict about the code."""
     if not os.path.exists(os.path.join(ctx.scratch, "specs.json")):
         evs = ctx.drv("dumpspecs", {"ids": []}, prog="session")
         ctx.write_json("specs.json", {"specs": evs[0]["specs"], "shuffling": evs[0]["shuffling"]})
-    name = "Session_MC_%s_%d_%s" % (mode, maxlen, "deep" if deep else "quick")
+    name = "Session_MC_%s_%d_%s_%s" % (mode, maxlen, "deep" if deep else "quick", "pruned" if prune else "full")
     with open(os.path.join(ctx.scratch, name + ".cfg"), "w") as f:
-        f.write(MC_CFG % dict(mode=mode, maxlen=maxlen, postlen=postlen, deep="TRUE" if deep else "FALSE"))
+        f.write(MC_CFG % dict(mode=mode, maxlen=maxlen, postlen=postlen, deep="TRUE" if deep else "FALSE", prune="TRUE" if prune else "FALSE"))
     res = ctx.tlc("Session_MC", cfg=name, workers=workers, timeout=timeout, heap="6g")
     if res.violated:
         raise vlib.Machinery("Session_MC %s: the repaired mechanism model violates %s (specification bug)\n%s" % (mode, res.violated, res.out[-3000:]))
@@ -86,10 +87,11 @@ def validate(ctx, rows, tag, nshards=8, timeout=1500):
         cur.append(r)
     if cur:
         groups.append(cur)
-    nshards = max(1, min(nshards, len(groups)))
-    shards = [[] for _ in range(nshards)]
+    # at most `nshards` TLC processes at a time, at most ~6000 rows per process (JSON is held in memory)
+    nparts = max(1, min(len(groups), max(nshards, (len(rows) + 5999) // 6000)))
+    shards = [[] for _ in range(nparts)]
     for i, g in enumerate(groups):
-        shards[i % nshards].extend(g)
+        shards[i % nparts].extend(g)
     src = open(os.path.join(ctx.scratch, "Session_Trace.tla")).read()
 
     def one(k):
@@ -104,7 +106,7 @@ def validate(ctx, rows, tag, nshards=8, timeout=1500):
         return ctx.tlc(mod, cfg="Session_Trace", timeout=timeout, heap="3g"), part
 
     with cf.ThreadPoolExecutor(max_workers=nshards) as ex:
-        results = list(ex.map(one, range(nshards)))
+        results = list(ex.map(one, range(nparts)))
     rej, drift, n = [], [], 0
     for res, part in results:
         if res is None:
@@ -152,19 +154,37 @@ def ops_str(cd):
 
 
 def confirm(ctx, rej, scn_by_sid, tag):
-    """Re-runs every rejected scenario in a fresh harness process and re-validates it; returns the
+    """Re-runs every rejected scenario in fresh harness processes and re-validates it; returns the
     reproduced rejections [(row, why)]. An unreproduced rejection is not a finding (exit 2)."""
     if not rej:
         return []
     sids = sorted({r["sid"] for r, _ in rej})
-    scns = [scn_by_sid[i] for i in sids]
-    by = replay(ctx, scns, "replay_confirm_" + tag)
-    rows = []
-    for s in scns:
-        rows.extend(rows_of(s, by[s["sid"]]))
-    rej2, _, _ = validate(ctx, rows, "confirm_" + tag, nshards=4)
+    rej2, _, _ = process(ctx, [scn_by_sid[i] for i in sids], "confirm_" + tag, lambda s, es, ks: None)
     again = {(r["sid"], r["k"], w) for r, w in rej2}
     lost = [(r["sid"], r["k"], w) for r, w in rej if (r["sid"], r["k"], w) not in again]
     if lost:
         raise vlib.Machinery("%d rejection(s) did not reproduce in a fresh process, e.g. %r" % (len(lost), lost[:3]))
     return rej2
+
+
+def process(ctx, scns, tag, visit, batch=12000, nshards=14):
+    """Replays and validates the scenarios batch by batch (bounded memory). visit(s, evs, rejected_ks) is called for
+    every scenario with its events and the set of rejected connection indices. Returns (rejections, drift rows, rows validated)."""
+    rej, drift, n = [], [], 0
+    for b, part in enumerate(vlib.chunks(scns, batch)):
+        evs = replay(ctx, part, "replay_%s_%d" % (tag, b))
+        rows = []
+        for s in part:
+            rows.extend(rows_of(s, evs[s["sid"]]))
+        r, d, k = validate(ctx, rows, "%s_%d" % (tag, b), nshards=nshards)
+        for row, _ in r:
+            row["ev"] = dict(row["ev"], hellos=[])      # rejected rows are kept for reporting: drop the bulk
+        rej.extend(r)
+        drift.extend(d[:3] if len(drift) < 3 else [{"_": 1}] * len(d))
+        n += k
+        rk = {}
+        for row, _ in r:
+            rk.setdefault(row["sid"], set()).add(row["k"])
+        for s in part:
+            visit(s, evs[s["sid"]], rk.get(s["sid"], set()))
+    return rej, drift, n
